@@ -14,7 +14,7 @@ PROP = 'C07'
 RULE = ('(i) nesting ladder: for each of ~30 constructs (brackets, parens, angles, braces, {{ }}, image/footnote/citation/glossary brackets, '
         '* _ emphasis, strong+emphasis, quotes, the five CriticMarkup pairs and a mixture, math, super/subscript, backtick runs, block quotes, '
         'list nesting and marker runs, definition colons, nested links, <div>, table pipes) the closed, unclosed and unopened forms with n on '
-        'the ladder 10^2..10^6 openers are converted by the uninstrumented CLI (default 8 MiB stack) through the writers in MMD and compatibility '
+        'the ladder 10^2..10^6 openers are converted by the uninstrumented CLI built without optimisation like the CMake build of the project (largest frames; default 8 MiB stack) through the writers in MMD and compatibility '
         'mode; oracle: exit status 0 (a signal is a violation; a rung exceeding the per-case time budget ends that ladder as inconclusive). '
         '(ii) repetition ladder: d^k for corpus files and line-kind representatives, k=1,2,4,..; cost = executed SanitizerCoverage edges (pure '
         'function of the input); oracle cost(d^2k) <= 2.15*cost(d^k) on the two largest rungs with >=64 KiB input, and peak stack < 6 MiB. '
@@ -89,6 +89,7 @@ def cost_bin():
 def prebuild():
     cost_bin()
     vbuild.cli('plain')
+    vbuild.cli('plain-O0')
 
 
 def _run_cli(cli, fmt, compat, data, timeout):
@@ -105,7 +106,7 @@ def ladder_task(args):
     """One (construct, form, fmt, mode) ladder climbed until a rung fails or times out."""
     name, form, fmt, compat, rungs, budget, work = args
     gen = constructs()[name]
-    cli = vbuild.cli('plain')
+    cli = vbuild.cli('plain-O0')
     out = dict(name=name, form=form, fmt=fmt, compat=compat, done=[], fail=None, inconclusive=None, runs=0)
     for n in rungs:
         doc = gen(n, form).encode()
@@ -174,7 +175,7 @@ def replay(path):
     head, _, doc = data.partition(b'\n')
     m = re.match(rb'fmt=(\w+) compat=(\d)', head)
     if m:
-        rc, dt, err = _run_cli(vbuild.cli('plain'), m.group(1).decode(), int(m.group(2)), doc, 600)
+        rc, dt, err = _run_cli(vbuild.cli('plain-O0'), m.group(1).decode(), int(m.group(2)), doc, 600)
         if rc == 0:
             print('replay passes:', path)
             return 0
@@ -342,7 +343,7 @@ def run(tier):
             head, _, doc = data.partition(b'\n')
             m = re.match(rb'fmt=(\w+) compat=(\d)', head)
             if m:
-                rc, dt, err = _run_cli(vbuild.cli('plain'), m.group(1).decode(), int(m.group(2)), doc, 300)
+                rc, dt, err = _run_cli(vbuild.cli('plain-O0'), m.group(1).decode(), int(m.group(2)), doc, 300)
                 ev.add_class('regression_replays')
                 ev.evaluations += 1
                 if rc != 0:
